@@ -108,7 +108,9 @@ SCEN = {
             wide=cfg(NJobs=2, Procs=2, MaxPid=3, MaxTime=1, Statuses=[-9], Results=['ok'],
                      UserCalls=U_ALL),
             small=[cfg(NJobs=1, Procs=2, MaxPid=3, MaxTime=1, Statuses=[-9], Results=['ok'],
-                       UserCalls=['Grow', 'Shrink', 'TerminateJob'], HookPause=True),
+                       UserCalls=['Grow', 'Shrink', 'TerminateJob']),
+                   cfg(NJobs=0, Procs=2, MaxPid=4, MaxTime=0, Statuses=[-9], Results=['ok'],
+                       UserCalls=['Grow', 'Shrink'], HookPause=True),
                    cfg(NJobs=2, Procs=1, MaxPid=2, MaxTime=1, Statuses=[-9], Results=['ok'],
                        UserCalls=['Discard', 'TerminateJob', 'Close'])],
             walks=cfg(NJobs=3, Procs=2, MaxPid=6, MaxTime=4, Statuses=[-9, 1], UserCalls=U_ALL,
@@ -235,7 +237,7 @@ def run(ctx, pid):
                                    timeout=1800 if thorough else 600, heap='6g', budget_ok=True, **k)
         if kind == 'small':
             return recipe.tlc_only(label, 'Pool', emit=True, timeout=3000 if thorough else 600,
-                                   heap='3g', **k)
+                                   heap='6g' if thorough else '3g', **k)
         return recipe.tlc_only(label, 'Pool', emit=True, simulate=nwalks, depth=depth,
                                seed=ctx.seed, timeout=1200, heap='2g', budget_ok=True, **k)
 
